@@ -3,15 +3,31 @@ use crate::corpus::Corpus;
 use crate::engine::Scenario;
 use std::sync::Arc;
 
+pub mod c01;
+pub mod c05;
+pub mod c06;
 pub mod c08;
 pub mod c09;
+pub mod c10;
+pub mod c12;
+pub mod c13;
+pub mod c18;
+pub mod c20;
 
-pub const CLAIMED: &[&str] = &["C08", "C09"];
+pub const CLAIMED: &[&str] = &["C01", "C05", "C06", "C08", "C09", "C10", "C12", "C13", "C18", "C20"];
 
 pub fn make(id: &str, corpus: Arc<Corpus>) -> Option<Box<dyn Scenario>> {
     Some(match id {
+        "C01" => Box::new(c01::C01::new(corpus)),
+        "C05" => Box::new(c05::C05 { corpus }),
+        "C06" => Box::new(c06::C06 { corpus }),
         "C08" => Box::new(c08::C08 { corpus }),
         "C09" => Box::new(c09::C09::new(corpus)),
+        "C10" => Box::new(c10::C10::new(corpus)),
+        "C12" => Box::new(c12::C12::new(corpus)),
+        "C13" => Box::new(c13::C13),
+        "C18" => Box::new(c18::C18),
+        "C20" => Box::new(c20::C20),
         _ => return None,
     })
 }
